@@ -194,28 +194,24 @@ def real_seq_tr(impl, code, s, io, is_, ts, moltype="dna", via_rc=False):
 COLL_KINDS = ["old.SequenceCollection", "old.ArrayAlignment", "old.Alignment", "new.SequenceCollection", "app.translate_seqs"]
 
 
-def real_coll_tr(kind, code, seqs, io, is_, ts, moltype="dna"):
+def real_coll_tr(kind, code, seqs, io, is_, ts, moltype="dna", history=()):
+    """`history`: operations applied to the freshly built collection before translating (harness/c12_hist.py); `seqs` are
+    the sequences the collection displays at the time of the call"""
+
     def run():
         import cogent3
 
-        d = {f"s{i}": (s.replace("T", "U") if moltype == "rna" else s) for i, s in enumerate(seqs)}
-        if kind == "old.SequenceCollection":
-            o = cogent3.make_unaligned_seqs(d, moltype=moltype)
-            r = o.get_translation(gc=code, incomplete_ok=io, include_stop=is_, trim_stop=ts)
-        elif kind == "old.ArrayAlignment":
-            o = cogent3.make_aligned_seqs(d, moltype=moltype, array_align=True)
-            r = o.get_translation(gc=code, incomplete_ok=io, include_stop=is_, trim_stop=ts)
-        elif kind == "old.Alignment":
-            o = cogent3.make_aligned_seqs(d, moltype=moltype, array_align=False)
-            r = o.get_translation(gc=code, incomplete_ok=io, include_stop=is_, trim_stop=ts)
-        elif kind == "new.SequenceCollection":
-            from cogent3.core import new_alignment
+        from . import c12_hist
 
-            o = new_alignment.make_unaligned_seqs(d, moltype=moltype)
+        shown = [(s.replace("T", "U") if moltype == "rna" else s) for s in seqs]
+        o = c12_hist.build(kind, shown, moltype, history)
+        if kind in COLL_KINDS[:4]:
             r = o.get_translation(gc=code, incomplete_ok=io, include_stop=is_, trim_stop=ts)
         elif kind == "app.translate_seqs":
             app = cogent3.get_app("translate_seqs", moltype=moltype, gc=code, trim_terminal_stop=ts)
-            r = app.main(cogent3.make_unaligned_seqs(d, moltype=moltype))
+            r = app.main(o)
+            if not hasattr(r, "to_dict"):
+                raise ValueError(str(r)[:200])
         else:
             raise ValueError(kind)
         rd = r.to_dict()
@@ -579,6 +575,17 @@ def correspondence(ctx):
         for impl, entry in (("old", "old.SequenceCollection"), ("new", "new.SequenceCollection")):
             reqs.append(("coll", dict(impl=impl, op="get_translation", code=code, rows=rows, incomplete_ok=io, include_stop=is_, trim_stop=ts)))
             reals.append(real_coll_tr(entry, code, rows, io, is_, ts))
+            if rng.random() < 0.5:
+                # the same model call against a collection in a derived state (rc'd, re-ordered, renamed, converted): the model
+                # is given the rows the real object displays at the time of the call
+                from . import c12_hist
+
+                hist = c12_hist.random_history(rng, entry)
+                shown = _call(lambda: [str(v) for _, v in sorted(c12_hist.build(entry, rows, "dna", hist).to_dict().items())])
+                if isinstance(shown, list) and len(shown) == len(rows) and all(set(x) <= set(BASES) for x in shown):
+                    reqs.append(("coll", dict(impl=impl, op="get_translation", code=code, rows=shown, incomplete_ok=io, include_stop=is_, trim_stop=ts,
+                                              entry=f"{entry}[derived]", history=hist, made_from=rows)))
+                    reals.append(real_coll_tr(entry, code, rows, io, is_, ts, "dna", hist))
             for op in ("has_terminal_stop", "trim_stop_codons"):
                 reqs.append(("coll", dict(impl=impl, op=op, code=code, rows=rows, strict=strict)))
                 reals.append(_real_coll_op(entry, op, code, rows, strict))
@@ -846,8 +853,32 @@ def check_case(case):
         cs = cs_old[code] if not ep.startswith("new") else cs_new[code]
         wants = [o_get_translation(cs, s, io, is_, ts, strict_length=False) for s in seqs]
         mt = case.get("moltype", "dna")
-        got = real_coll_tr(ep, code, seqs, io, is_, ts, mt)
-        return _judge_tr(ep if mt == "dna" else f"{ep}[{mt}]", case, cs, seqs, wants, got)
+        hist = case.get("history") or []
+        if hist:
+            # the oracle speaks about the sequences the derived collection DISPLAYS at the time of the call (whether a derived
+            # collection displays what it should is C10's subject, not C12's)
+            from . import c12_hist
+
+            shown = _call(lambda: [str(v) for _, v in sorted(c12_hist.build(ep, [s.replace("T", "U") if mt == "rna" else s for s in seqs], mt, hist).to_dict().items())])
+            if isinstance(shown, dict) or len(shown) != len(seqs):
+                return dict(what=f"{ep} [{mt}]: building the collection with history {'+'.join(hist)} failed", expected=seqs, got=shown,
+                            sig=f"{ep}[{mt}]:history-build:{'+'.join(sorted(set(hist)))}")
+            case = dict(case, displayed_differs=[s.replace("U", "T") for s in shown] != list(seqs))
+            seqs = [s.replace("U", "T") for s in shown]
+            wants = [o_get_translation(cs, s, io, is_, ts, strict_length=False) for s in seqs]
+        got = real_coll_tr(ep, code, case["seqs"], io, is_, ts, mt, hist)
+        res = _judge_tr(ep if mt == "dna" else f"{ep}[{mt}]", case, cs, seqs, wants, got)
+        if res and hist:
+            # the same call on a freshly built collection showing the same sequences: a difference is due to the derived state
+            fresh = _judge_tr(ep if mt == "dna" else f"{ep}[{mt}]", case, cs, seqs, wants, real_coll_tr(ep, code, seqs, io, is_, ts, mt))
+            if fresh is None or fresh["got"] != res["got"]:
+                cls = "after:" + "+".join(sorted(set(hist)))
+                if isinstance(res["got"], list) and all(isinstance(g, str) and w is not None and g == w[::-1] for g, w in zip(res["got"], wants)) and any(len(w) > 1 for w in wants if w):
+                    cls = "derived-state:translation-back-to-front"
+                res = dict(res, what=f"{ep} [{mt}] get_translation(include_stop={is_}, trim_stop={ts}, incomplete_ok={io}) after {'+'.join(hist)} is not the translation of the sequences it displays, {seqs} "
+                                f"(a fresh collection of the same sequences gives {'the expected result' if fresh is None else fresh['got']})",
+                           sig=res["sig"] + ":" + cls)
+        return res
     if k == "app.translate_frames":
         from cogent3.app.translate import translate_frames
 
@@ -1049,8 +1080,13 @@ def _cases(ctx, rng, budget):
             if ep == "app.translate_seqs":
                 if io or is_:
                     continue
-            yield dict(kind="coll.get_translation", entry=ep, code=code, seqs=seqs, incomplete_ok=io, include_stop=is_, trim_stop=ts,
-                       moltype="rna" if rng.random() < 0.25 else "dna")
+            mt_ = "rna" if rng.random() < 0.25 else "dna"
+            yield dict(kind="coll.get_translation", entry=ep, code=code, seqs=seqs, incomplete_ok=io, include_stop=is_, trim_stop=ts, moltype=mt_)
+            # the same sequences shown by a collection in a derived state (rc'd, re-ordered, renamed, converted, sliced …)
+            from . import c12_hist
+
+            yield dict(kind="coll.get_translation", entry=ep, code=code, seqs=seqs, incomplete_ok=io, include_stop=is_, trim_stop=ts, moltype=mt_,
+                       history=c12_hist.random_history(rng, ep))
     # complement / ambiguity, all symbols of every moltype
     for mtname in ("olddna", "oldrna", "newdna", "newrna"):
         u = "U" if mtname.endswith("rna") else "T"
@@ -1104,6 +1140,10 @@ def spec_check(ctx, budget):
         bump(out, "spec_entry_point", ep)
         if "s" in case and case["kind"].startswith("gc."):
             bump(out, "spec_len_mod_3", len(case["s"]) % 3)
+        if "entry" in case:
+            for op in case.get("history") or ["(fresh)"]:
+                bump(out, "coll_state_ops", op)
+            bump(out, "coll_history_len", len(case.get("history") or []))
         try:
             res = check_case(case)
         except Exception as e:  # harness bug or an unexpected exception class
